@@ -216,7 +216,8 @@ static TMPN: std::sync::atomic::AtomicU64 = std::sync::atomic::AtomicU64::new(0)
 
 pub fn work_dir(tag: &str) -> std::path::PathBuf {
     let n = TMPN.fetch_add(1, std::sync::atomic::Ordering::SeqCst);
-    let p = std::path::PathBuf::from(format!("/verif/work/e2e-{}-{}-{}", tag, std::process::id(), n));
+    let parent = std::env::var("E2E_PARENT").unwrap_or_else(|_| "0".to_string());
+    let p = std::path::PathBuf::from(format!("/verif/work/e2e-{}-{}-{}-{}", tag, parent, std::process::id(), n));
     std::fs::create_dir_all(&p).ok();
     p
 }
